@@ -110,7 +110,8 @@ def main():
     broken = []       # obligations / correspondence that no longer check
 
     # 1. build: facts, proofs, drivers, harness
-    br = lib.build_all(cfg["lean_targets"], cfg["go_cmds"])
+    # race-detector builds are only used by thorough-tier streams
+    br = lib.build_all(cfg["lean_targets"], [c for c in cfg["go_cmds"] if tier == "thorough" or not c.endswith(".race")])
     if not br.extract_ok:
         broken.append({"kind": "extractor", "what": "fact extraction failed", "log": br.extract_log[-1500:]})
     if not br.lean_ok:
@@ -155,10 +156,22 @@ def main():
                     with open(out_path, "wb") as f:
                         p = subprocess.run(sub(s["scenario"]), stdout=f, stderr=subprocess.PIPE, timeout=s.get("timeout", 1500))
                     rc = p.returncode
-                    err = p.stderr.decode(errors="replace")[-400:]
+                    full_err = p.stderr.decode(errors="replace")
+                    err = full_err[-400:]
                 except subprocess.TimeoutExpired:
-                    rc, err = 124, "scenario timed out"
+                    rc, err, full_err = 124, "scenario timed out", ""
                 lines = [l.rstrip("\n") for l in open(out_path, errors="replace") if l.strip()]
+                if s.get("race_only"):
+                    # a race-detector build of a scenario: only the detector's verdict is judged here (the
+                    # instrumented binary is several times slower, its time bounds say nothing)
+                    lines = [l.split(" VIOL", 1)[0] for l in lines]
+                    if rc == 66 or "WARNING: DATA RACE" in full_err:
+                        m = re.search(r"WARNING: DATA RACE(.*?)(?:==================|\Z)", full_err, re.S)
+                        fns = re.findall(r"^  ([A-Za-z0-9_./*()\[\]]+)\(\)$", m.group(1) if m else "", re.M)
+                        lines.append("%s run=race-detector VIOL data-race:%s" % (s["name"], ",".join(fns[:6]) or "see-stderr"))
+                        rc = 0
+                    elif rc != 0:
+                        rc = 0   # other exits of the slow build (missed time bounds) are not judged
                 total += len(lines)
                 distinct += len(set(" ".join(t for t in l.split(" ") if not t.startswith(("seed=", "run="))) for l in lines))
                 samples += [{"scenario": s["name"], "line": l[:300]} for l in lines[:3]]
